@@ -318,4 +318,54 @@ theorem sumInv_apply (p : PropSet) (h : SumInv p) (op : SumOp) (hok : op.Ok) : S
       rcases hok with rfl | rfl | rfl | rfl | rfl | rfl | rfl | rfl <;> decide
     exact sumInv_remove p h id this
 
+
+/-! ### the template property: architecture and languages -/
+
+/-- the template text `set_arch` stores: the new architecture, a semicolon, the languages part kept -/
+def archText (p : PropSet) (a : List Char) : List Char :=
+  a ++ [';'] ++ (match Summary.getStr p Gen.propTemplate with
+    | some t => match Summary.splitOnce ';' t with
+      | some (_, l) => l
+      | none => []
+    | none => [])
+
+/-- the template text `set_languages` stores: the architecture part kept, a semicolon, the codes -/
+def langsText (p : PropSet) (codes : List Nat) : List Char :=
+  (match Summary.getStr p Gen.propTemplate with
+    | some t => match Summary.splitOnce ';' t with
+      | some (x, _) => x
+      | none => t
+    | none => []) ++ [';'] ++ List.intercalate [','] (codes.map fun c => (toString c).toList)
+
+theorem setArch_eq (p : PropSet) (a : List Char) :
+    Summary.setArch p a = p.set Gen.propTemplate (.lpstr (archText p a)) := rfl
+theorem setLanguages_eq (p : PropSet) (codes : List Nat) :
+    Summary.setLanguages p codes = p.set Gen.propTemplate (.lpstr (langsText p codes)) := rfl
+
+/-- the two setters of the template property (`set_arch`, `set_languages`) -/
+inductive TemplOp
+  | arch (a : List Char)
+  | languages (codes : List Nat)
+
+def TemplOp.apply : TemplOp → PropSet → PropSet
+  | .arch a, p => Summary.setArch p a
+  | .languages cs, p => Summary.setLanguages p cs
+
+/-- admitted in a state when the template text that results stays below 128 MiB -/
+def TemplOp.OkIn (p : PropSet) : TemplOp → Prop
+  | .arch a => (utf8Bytes (archText p a)).length < bound
+  | .languages cs => (utf8Bytes (langsText p cs)).length < bound
+
+/-- **the template setters keep the summary expressible** -/
+theorem sumInv_templ (p : PropSet) (h : SumInv p) (op : TemplOp) (hok : op.OkIn p) : SumInv (op.apply p) := by
+  cases op with
+  | arch a =>
+    show SumInv (Summary.setArch p a)
+    rw [setArch_eq]
+    exact sumInv_set p h Gen.propTemplate _ (by decide) (by decide) hok
+  | languages cs =>
+    show SumInv (Summary.setLanguages p cs)
+    rw [setLanguages_eq]
+    exact sumInv_set p h Gen.propTemplate _ (by decide) (by decide) hok
+
 end MsiProofs.SummaryInv
